@@ -3,9 +3,18 @@
 //! /repo's working tree, and writes inputs + observations as Coq terms for the model side.
 mod out;
 mod rng;
+mod c02;
+mod c05;
+mod c07;
+mod progs;
+mod c11;
 mod c12;
+mod c13;
 mod c14;
+mod c16;
+mod c19;
 mod probes;
+mod gcprobe;
 mod vmgen;
 mod vmrun;
 
@@ -26,7 +35,8 @@ fn main() {
         std::process::exit(2);
     }
     let cmd = argv[1].clone();
-    if cmd == "probe" { if argv[2] == "handles" { probes::handles(); } else { probes::run(&argv[2]); } return; }
+    if cmd == "gcprobe" { gcprobe::run(&argv[2]); return; }
+    if cmd == "probe" { if argv[2] == "handles" { probes::handles(); } else if argv[2] == "c02-guard-children" { probes::guard_children(); } else { probes::run(&argv[2]); } return; }
     let mut a = Args { prop: argv[2].clone(), seed: 1, n: 300, tier: "quick".into(), out: PathBuf::from("work") };
     let mut i = 3;
     while i < argv.len() {
@@ -41,8 +51,15 @@ fn main() {
     out::start_watchdog();
     if std::env::var("VM_PANICMSG").is_err() { std::panic::set_hook(Box::new(|_| {})); }
     match (cmd.as_str(), a.prop.as_str()) {
+        ("gen", "C02") => c02::gen(&a),
+        ("gen", "C05") => c05::gen(&a),
+        ("gen", "C07") => c07::gen(&a),
+        ("gen", "C11") => c11::gen(&a),
         ("gen", "C12") => c12::gen(&a),
+        ("gen", "C13") => c13::gen(&a),
         ("gen", "C14") => c14::gen(&a),
+        ("gen", "C16") => c16::gen(&a),
+        ("gen", "C19") => c19::gen(&a),
         ("gen", "VM") => vmrun::gen(&a),
         ("replay", "VM") => vmrun::replay(&a),
         _ => { eprintln!("unknown command/property"); std::process::exit(2); }
